@@ -14,7 +14,7 @@ LEVEL = "exploration"
 EXHAUSTIVE = True
 RULE = ("every (n solutions, constraint, bounds in 0..n+2, entity|set_of, list|generator|domain-less domain, "
         "filtered|unfiltered) combination up to n<=N is enumerated (N=6 quick, 10 thorough) plus random n<=60 in "
-        "thorough; a case is non-trivial when a constraint is present (an() without constraint is the trivial case); "
+        "thorough; the() around a quantified inner query (inner solutions 0..3 x inner constraint x outer matches 0..2); a case is non-trivial when a constraint is present (an() without constraint is the trivial case); "
         "distinct = (n, constraint kind, bounds, selector, domain kind, filtered)")
 ASSUMPTIONS = ["solutions are produced by a single-variable query whose satisfying elements are known by construction",
                "any exception at construction time counts as 'rejected' for negative/inverted bounds"]
@@ -25,7 +25,7 @@ ANCHORS = ["ResultQuantifier._evaluate__", "Exactly.assert_satisfaction", "AtMos
 def plan(tier):
     return {"cases": 0 if tier == "quick" else 6000, "shards": 16, "case_timeout": 10,
             "shard_timeout": 600, "min_nontrivial": 500,
-            "min_counters": {"yield_events": 1000, "contract_evals": 1000, "construct_rejections": 10,
+            "min_counters": {"yield_events": 1000, "contract_evals": 1000, "construct_rejections": 10, "nested_cases": 100,
                              "falsy_solutions": 300}}
 
 
@@ -58,6 +58,12 @@ def exhaustive(tier, ctx):
                         if dom == "scalar" and not filt:
                             continue        # the scalar form always carries a condition that binds the variable
                         yield {"n": n, "c": list(c), "sel": sel, "dom": dom, "filt": filt, "pad": 2 if filt else 0}
+    # a quantified query nested inside the(): a violated inner constraint is reported as what it is
+    for n_in in range(0, 4):
+        for kind in ("atleast", "atmost", "exactly"):
+            for k in range(0, 5):
+                for m_out in (0, 1, 2):
+                    yield {"nested": {"n_in": n_in, "c": [kind, k], "m_out": m_out}}
     # invalid constructions
     for k in (-1, -2, -7):
         for kind in ("atleast", "atmost", "exactly"):
@@ -129,6 +135,48 @@ def make_constraint(c):
     return None
 
 
+def run_nested(ns, m, C):
+    """the(entity(x, x.a == an(entity(y.a), quantification=c))): the inner query has n_in solutions (values 1..n_in),
+    m_out outer elements carry the value 1"""
+    from krrood.entity_query_language.entity import entity, let
+    from krrood.entity_query_language.quantify_entity import an, the
+    import krrood.entity_query_language.failures as F
+    n_in, c, m_out = ns["n_in"], ns["c"], ns["m_out"]
+    ys = [m.P(a=i + 1, name=f"y{i}") for i in range(n_in)]
+    xs = [m.P(a=1, name=f"x{i}") for i in range(m_out)] + [m.P(a=99, name="other")]
+    y = let(m.P, list(ys), name="y")
+    x = let(m.P, list(xs), name="x")
+    inner = an(entity(y.a), quantification=make_constraint(c))
+    C["nested_cases"] += 1
+    lo_y, hi_y, inner_exc = expected(n_in, c)
+    matches = m_out if n_in >= 1 else 0
+    if inner_exc is not None:
+        want = inner_exc
+    elif matches == 0:
+        want = "NoSolutionFound"
+    elif matches > 1:
+        want = "MultipleSolutionFound"
+    else:
+        want = None
+    try:
+        got = the(entity(x, x.a == inner)).evaluate()
+        raised = None
+    except Exception as e:
+        got, raised = None, e
+    rname = type(raised).__name__ if raised is not None else None
+    problems = []
+    if rname != want:
+        problems.append(f"the() around an inner {c} with {n_in} solutions and {matches} outer matches: expected {want}, got {rname}")
+    elif raised is not None and inner_exc is not None and getattr(raised, "expression", None) is not inner:
+        problems.append(f"the {rname} does not name the inner query as its expression")
+    elif raised is None and got is not xs[0]:
+        problems.append(f"the() returned {got!r} instead of the only match")
+    C["exc:" + str(rname)] += 1
+    if problems:
+        return {"status": "fail", "kind": "nested-quantifier", "key": None, "detail": "; ".join(problems)}
+    return {"status": "ok", "nontrivial": True, "shape": f"nested|{n_in}|{c}|{m_out}"}
+
+
 def run(spec, ctx):
     from krrood.entity_query_language.entity import entity, set_of, let
     from krrood.entity_query_language.quantify_entity import an, the
@@ -156,6 +204,8 @@ def run(spec, ctx):
         return {"status": "fail", "kind": "invalid-constraint-accepted", "key": None,
                 "detail": f"constructing {c} raised nothing"}
 
+    if "nested" in spec:
+        return run_nested(spec["nested"], m, C)
     n, c, pad = spec["n"], spec["c"], spec["pad"]
     filt = spec["filt"]
     # build domain: n solutions (a=1) interleaved with pad non-solutions (a=0) when filtered
